@@ -131,7 +131,8 @@ PROPS = {
         "level_text": "Every spec-valid cell of resolutions 0-5 (quick) / 0-7 (thorough, 98.8M cells at res 7) is produced by an enumerator written from the documented "
                       "layout and pushed through cellToLatLng -> latLngToCell; the number enumerated is compared with getNumCells and the closed form; pentagon and "
                       "res-0 lists are compared with reference lists at all 16 resolutions. Finer resolutions are covered completely only within 6 steps of the "
-                      "twelve pentagons and around icosahedron edges / face centres / poles / antimeridian, and by stratified random cells, under ASan+UBSan.",
+                      "twelve pentagons and around icosahedron edges / face centres / poles / antimeridian, on every cell with one or two non-zero digits (all positions, all digit values, res 1-15) "
+                      "under the twelve pentagon and six hexagon base cells, and by stratified random cells, under ASan+UBSan.",
         "level_note": "Trusted base: the reference enumerator (digit counting with the pentagon skip rule) and the documented pentagon base cell list.",
         "technique": "runtime monitoring: complete enumeration of coarse resolutions from a documentation-derived enumerator, round-trip identity and count oracles, sanitizers on the special neighbourhoods",
         "evaluations": ["roundtrips"],
@@ -139,7 +140,7 @@ PROPS = {
                 "(whole resolutions), gridDisk(6) around the 12 pentagons and gridDisk(2) around icosahedron-edge/face-centre/pole/antimeridian seeds at "
                 "res 0-15, and stratified random cells. Non-trivial = every valid cell; distinct by cell index (whole-resolution sweeps beyond the perturbation "
                 "depth are sampled 1/1024 into the distinct set).",
-        "require": {"roundtrips": {"quick": 2000000, "thorough": 100000000}, "whole_resolutions": {"quick": 6, "thorough": 8}, "special.cells": 10000, "counts.res_checked": 16},
+        "require": {"roundtrips": {"quick": 2000000, "thorough": 100000000}, "whole_resolutions": {"quick": 6, "thorough": 8}, "special.cells": 10000, "counts.res_checked": 16, "sparse.cells": 300000},
         "exhaustive": True,
         "exhaustive_note": "exhaustive for resolutions 0-5 (quick) / 0-7 (thorough); sampled beyond",
         "assumptions": ["reference enumerator equals the documented layout", "resolutions finer than the exhaustive ones are covered near pentagons/face edges/poles/antimeridian and by sampling only"],
